@@ -242,7 +242,7 @@ func runScript(gated bool, seed uint64, segs [][]hact) string {
 	r.gated = false
 	r.mu.Unlock()
 	for k := range r.ls {
-		r.ls[k].unsub()
+		r.do(hact{kind: "Unsub", k: k}) // recovers: a panic here has already been observed by the case itself or is not its business
 	}
 	r.drain()
 	return fmt.Sprintf("EC %s %s", emit.Bool(gated), emit.List(out))
